@@ -541,6 +541,19 @@ pub fn record_varint(out: &mut Out, tier: &str, seed: u64) {
     for v in pts {
         point(out, v);
     }
+    // values that do not fit 32 bits (TLC integers are 32-bit signed: the value travels as two 16/32-bit halves)
+    for v in [1u64 << 32, (1 << 32) + 5, (1 << 32) + (1 << 27), (1 << 32) + 268435455, 1 << 33, 1 << 40, (1 << 48) + 127,
+              u64::MAX, u32::MAX as u64, (u32::MAX as u64) + 1, 1 << 31, 3 << 30] {
+        let a = guarded(|| var_int_len(v as usize));
+        let b = guarded(|| total_len(v as usize));
+        let j = |r: Result<Result<usize, mqtt_proto::Error>, String>| match r {
+            Ok(Ok(k)) => json!({"k": "ok", "lo": (k as u64 & 0xFFFF_FFF) as u64}),
+            Ok(Err(e)) => err3_to_json(&e),
+            Err(m) => json!({"k": "panic", "msg": m}),
+        };
+        out.ev(json!({"ev": "VarIntHuge", "hi": (v >> 28) as u64 & 0x7FFF_FFFF, "hi2": (v >> 59) as u64, "lo": v & 0xFFF_FFFF,
+                      "vlen": j(a), "tlen": j(b)}));
+    }
     if tier == "thorough" {
         full_codec_sweep(out);
     }
